@@ -23,7 +23,7 @@ RULE = ("Each of the 657 named colours exhaustively (16 per document as a 4x4 bo
         "name is the frozen name of the requested font. Non-trivial = >=2 distinct non-default colours or a "
         "multi-section / figure document with a colour; distinct by sha1 of recipe.")
 ASSUMPTIONS = ["frozen colour / font tables (data/*.json) are the meaning of 'the named colour' / 'font number'",
-               "documents are kept to one page per section so that C09's pagination binding is not involved"]
+               "multi-section and figure documents are kept to one page per section; single tables are also paginated"]
 
 ALL = refdata.color_names()
 
@@ -35,7 +35,9 @@ def _colors(n=8):
 @st.composite
 def _shaped(draw, pal, nrow, ncol, with_blank=True):
     el = st.sampled_from(pal + (["", "black"] if with_blank else []))
-    shape = draw(st.sampled_from(["scalar", "per_column", "matrix", "per_row"]))
+    shape = draw(st.sampled_from(["scalar", "per_column", "matrix", "per_row", "pattern"]))
+    if shape == "pattern":      # 2-3 rows recycled down the table
+        return [[draw(el) for _ in range(ncol)] for _ in range(draw(st.integers(2, 3)))]
     if shape == "scalar":
         return draw(el)
     if shape == "per_column":
@@ -60,10 +62,15 @@ def _text_comp(draw, tag, pal, lines=None):
 @st.composite
 def _section(draw, pal, idx, multi):
     ncol = draw(st.integers(1, 4))
-    n = draw(st.integers(1, 6))
+    n = draw(st.integers(1, 6)) if multi else draw(st.integers(1, 14))
     names = [f"@N{idx}x{j}" for j in range(ncol)]
     cols = [{"name": names[j], "dtype": "str", "values": [f"r{i}c{j}" for i in range(n)]} for j in range(ncol)]
     body = {}
+    if not multi and ncol >= 2 and draw(st.integers(0, 9)) < 3:
+        # a page_by column shown as spanning rows: removed from the table, attributes keep the ORIGINAL column index
+        g = draw(st.integers(0, ncol - 1))
+        cols[g]["values"] = [f"@G0:v{i // 4}" for i in range(n)]
+        body["page_by"] = [names[g]]
     for key in ("text_color", "text_background_color"):
         if draw(st.integers(0, 9)) < 7:
             body[key] = draw(_shaped(pal, n, ncol))
@@ -115,6 +122,7 @@ def _doc(draw):
                        "page_source": "all"}
     elif kind == "table":
         rec["sections"] = [draw(_section(pal, 0, False))]
+        rec["page"] = {"nrow": draw(st.sampled_from([50, 50, 4, 6]))}
     else:
         k = draw(st.integers(2, 4))
         rec["sections"] = [draw(_section(draw(_colors(4)) if draw(st.booleans()) else pal, i, True)) for i in range(k)]
